@@ -40,6 +40,7 @@ var ErrParametersValueSizeTooLarge = errors.New("provided parameters exceeded th
 var ErrNegativeParameterValueLen = errors.New("negative parameter length detected")
 var ErrMalformedMessage = errors.New("malformed message detected")
 var ErrMessageTooLarge = errors.New("payload message hit allowed memory boundaries")
+var ErrTxAborted = errors.New("current transaction is aborted, commands ignored until end of transaction block")
 
 func MapPgError(err error) (er bm.ErrorResp) {
 	switch {
@@ -86,6 +87,11 @@ func MapPgError(err error) (er bm.ErrorResp) {
 	case errors.Is(err, ErrNegativeParameterValueLen):
 		er = bm.ErrorResponse(bm.Severity(pgmeta.PgSeverityError),
 			bm.Code(pgmeta.DataException),
+			bm.Message(err.Error()),
+		)
+	case errors.Is(err, ErrTxAborted):
+		er = bm.ErrorResponse(bm.Severity(pgmeta.PgSeverityError),
+			bm.Code("25P02"), // in_failed_sql_transaction
 			bm.Message(err.Error()),
 		)
 	case errors.Is(err, ErrMalformedMessage):
